@@ -526,6 +526,15 @@ def common_summaries():
         sel = re.match(r'^(?:errors::)?(\w+Snafu)', fn).group(1)
         return [(st, build_error(ex, sel, argv[0] if argv else None))]
 
+    @reg(r'^<(u8|u16|u32|u64|usize) as Into<(u8|u16|u32|u64|usize|u128)>>::into$')
+    def int_into(ex, st, fn, argv):
+        m_ = re.match(r'^<(\w+) as Into<(\w+)>>', fn)
+        w = INT_TYPES[m_.group(2)][0]
+        a = argv[0]
+        if a.width > w:
+            raise Unsupported(f"narrowing Into in {fn}")
+        return [(st, Int(z3.ZeroExt(w - a.width, a.bv) if w > a.width else a.bv, w, False))]
+
     @reg(r' as Into<.*>>::into$|^must_use::<|<String as Clone>::clone$|<.* as ToString>::to_string$|<String as From<&str>>::from$|<str as ToOwned>::to_owned$|^String::as_str$|<String as AsRef<str>>::as_ref$|<String as Deref>::deref$|<&str as Into<String>>::into|<str as AsRef<str>>::as_ref|<String as Borrow<str>>::borrow$|<S as Into<String>>::into$|<S as AsRef<str>>::as_ref$|^<&String as Into<String>>|^<Cow<.*str> as Deref>::deref$|^<Cow<.*str> as AsRef<str>>::as_ref$|^Cow::<.*str>::into_owned$|^<Cow<.*str> as Borrow<str>>::borrow$')
     def identity(ex, st, fn, argv):
         v = deref(ex, st, argv[0])
@@ -646,6 +655,26 @@ def common_summaries():
         w = INT_TYPES[re.match(r'^<(\w+) as', fn).group(1)][0]
         a = argv[0]
         return [(st, Int(z3.ZeroExt(w - a.width, a.bv), w, False))]
+
+    @reg(r'^<(u8|u16|u32|u64|usize|u128) as Default>::default$')
+    def int_default(ex, st, fn, argv):
+        w = INT_TYPES[re.match(r'^<(\w+) as', fn).group(1)][0]
+        return [(st, Int(0, w, False))]
+
+    @reg(r'^<bool as Default>::default$')
+    def bool_default(ex, st, fn, argv):
+        return [(st, Bool(False))]
+
+    @reg(r'^<(u8|u16|u32|u64|usize|u128) as PartialEq>::(eq|ne)$|^core::cmp::impls::<impl PartialEq for (u8|u16|u32|u64|usize)>::(eq|ne)$')
+    def int_eq(ex, st, fn, argv):
+        a, b = deref(ex, st, argv[0]).bv, deref(ex, st, argv[1]).bv
+        return [(st, Bool(a == b if fn.endswith('eq') else a != b))]
+
+    @reg(r'^<(u8|u16|u32|u64|usize|u128) as PartialOrd>::(lt|le|gt|ge)$')
+    def int_ord(ex, st, fn, argv):
+        a, b = deref(ex, st, argv[0]).bv, deref(ex, st, argv[1]).bv
+        op = {'lt': z3.ULT, 'le': z3.ULE, 'gt': z3.UGT, 'ge': z3.UGE}[fn[-2:]]
+        return [(st, Bool(op(a, b)))]
 
     @reg(r'^(core::num::<impl )?(u8|u16|u32|u64|usize)>?::max_value$')
     def int_maxval(ex, st, fn, argv):
@@ -890,6 +919,35 @@ def common_summaries():
     def r_is(ex, st, fn, argv):
         o = as_enum(ex, st, deref(ex, st, argv[0]))
         return [(st, Bool(o.disc_bv() == (0 if fn.endswith('is_ok') else 1)))]
+
+    @reg(r'^(std::option::)?Option::<.*>::(get_or_insert|insert|replace)$')
+    def opt_insert_family(ex, st, fn, argv):
+        op = fn.rsplit('::', 1)[1]
+        r = argv[0]
+        o = as_enum(ex, st, ex.read_path(st, r.cell, r.path))
+        ex.write_path(st, r.cell, r.path, o)
+        outs = []
+        for (s, c, some) in ex.fork_on(st, o.disc_bv() == 1, (r, argv[1])):
+            rr, v = c
+            oo = ex.read_path(s, rr.cell, rr.path)
+            inner_ref = Ref(rr.cell, rr.path + (('downcast', 'Some'), ('field', 0, '')))
+            if op == 'get_or_insert':
+                if some:
+                    payload0(ex, s, oo, 1)
+                    ex.drop_fields(s, v)            # the value that is not needed is dropped
+                else:
+                    ex.write_path(s, rr.cell, rr.path, mk_option(v))
+                outs.append((s, inner_ref))
+            elif op == 'insert':
+                if some:
+                    ex.drop_fields(s, payload0(ex, s, oo, 1))
+                ex.write_path(s, rr.cell, rr.path, mk_option(v))
+                outs.append((s, inner_ref))
+            else:
+                old = mk_option(payload0(ex, s, oo, 1)) if some else mk_option()
+                ex.write_path(s, rr.cell, rr.path, mk_option(v))
+                outs.append((s, old))
+        return outs
 
     @reg(r'^(std::option::)?Option::<.*>::(as_ref|as_mut)$')
     def o_as_ref(ex, st, fn, argv):
